@@ -1098,7 +1098,7 @@ def compute(case):
         ilo, ila = lonlat(isc)
         real['indep'] = [[float(a), float(b)] for a, b in zip(ilo, ila)]
         real['conv'] = [[float(a), float(b)] for a, b in sky_points(sky)]
-        tj = tables_json(p2s, s2p, loc, fs)
+        tj = tables_json(p2s, s2p, loc)
         tj['q2s'] = [[frac(F(a)), frac(F(b)), frac(F(c_)), frac(F(d_))] for (a, b), (c_, d_) in q2s.items()]
         req = {'op': 'c06.pix', 'region': model_pix(d, fresh), 'wcs': tj,
                'pts': [[frac(F(x)), frac(F(y))] for x, y in zip(px, py)]} if real['finite'] else None
@@ -1156,7 +1156,7 @@ def compute(case):
         except Exception as e:
             real['pix2'] = {'exc': f'{type(e).__name__}: {e}'}
     real['conv'] = [[float(a), float(b)] for a, b in pix_points(pix)]
-    req = {'op': 'c06.sky', 'region': model_sky(d, fresh), 'wcs': tables_json(p2s, s2p, loc, fs),
+    req = {'op': 'c06.sky', 'region': model_sky(d, fresh), 'wcs': tables_json(p2s, s2p, loc),
            'pts': [[frac(F(x)), frac(F(y))] for x, y in zip(lo, la)]} if real['finite'] else None
     return {'real': real, 'req': req}
 
@@ -1542,11 +1542,7 @@ class Check(PropertyCheck):
                     continue
                 if b != exp:
                     exp_lost, _ = spec_contains(d_lost, F(pi[0]), F(pi[1]))
-                    sw, mgs = spec_contains(d, F(pi[1]), F(pi[0]))
-                    if case['wcs'].get('latfirst') and b == sw and mgs >= band:
-                        bad('latfirst_membership_swapped', f'latitude-first WCS: position {p}: the pixel region says {a}, its sky image says {b} about the '
-                            f'sky image of that position = the pixel region\'s answer at the position with x and y exchanged', f205_class=True)
-                    elif f2 and lost and b == exp_lost:
+                    if f2 and lost and b == exp_lost:
                         bad('compound_membership_changed', f'position {p}: pixel region says {a}, its sky image says {b} '
                             '(include flag of a compound node lost by to_sky)', f2_class=True)
                     else:
@@ -1560,12 +1556,7 @@ class Check(PropertyCheck):
                 if mg < band:
                     continue
                 if a != b:
-                    sw, mgs = spec_contains(real['pix_desc'], F(p[1]), F(p[0]))
-                    if case['wcs'].get('latfirst') and a == sw and mgs >= band:
-                        bad('latfirst_membership_swapped', f'latitude-first WCS: the WCS maps the position to pixel {p}: SkyRegion.contains {a}, its pixel image says {b} '
-                            f'there; {a} is the pixel image\'s answer at the position with x and y exchanged', f205_class=True)
-                    else:
-                        bad('sky_contains_differs_from_pixel_image', f'the WCS maps the position to pixel {p}: SkyRegion.contains {a}, pixel image {b}; margin {float(mg):.3g}')
+                    bad('sky_contains_differs_from_pixel_image', f'the WCS maps the position to pixel {p}: SkyRegion.contains {a}, pixel image {b}; margin {float(mg):.3g}')
                     break
         return V
 
@@ -1718,8 +1709,6 @@ class Check(PropertyCheck):
         """F2 (fixed in 23f75f4; matters only if the entry is ever re-opened): a compound node whose non-empty dictionaries
         came back EMPTY, or the membership change that is exactly explained by the lost include flag.  With the entry
         `fixed`, a regression is a VIOLATION (corpus/C06/f2_compound_meta.json replays the original witness first)."""
-        if finding.get('id') == 'F205':
-            return violation.get('kind') == 'latfirst_membership_swapped' and violation.get('f205_class') is True
         if finding.get('id') == 'F204':
             return violation.get('kind') == 'foreign_frame_size_changed' and violation.get('f204_class') is True
         if finding.get('id') == 'F203':
